@@ -8,6 +8,7 @@
 package c10
 
 import (
+	"regexp"
 	"fmt"
 	"os"
 	"path/filepath"
@@ -34,8 +35,9 @@ type Call struct {
 }
 
 type Fault struct {
-	Kind string `json:"kind"` // none truncate zero-sector bitflip directory dangling-symlink empty devnull
+	Kind string `json:"kind"` // none truncate zero-sector bitflip directory dangling-symlink empty devnull page-unloadable
 	At   int    `json:"at,omitempty"`
+	Page int    `json:"page,omitempty"` // page-unloadable, set when the case is finalised: the 1-based page
 }
 
 type Spec struct {
@@ -96,6 +98,12 @@ func (p *Prop) Generate(base uint64, index int, env *sim.Env) *sim.Case {
 	if r.Pct(25) {
 		c.Mode = "faults"
 		sp.Fault.Kind = sim.Pick(r, []string{"truncate", "truncate", "zero-sector", "bitflip", "directory", "dangling-symlink", "empty", "devnull"})
+		sp.Fault.At = r.Intn(1 << 20)
+	} else if sp.Other == "" && r.Pct(20) {
+		// one page cannot be loaded (the cross-reference entry of its content stream points
+		// at another object); every other page is intact and must behave as in the intact file
+		c.Mode = "faults"
+		sp.Fault.Kind = "page-unloadable"
 		sp.Fault.At = r.Intn(1 << 20)
 	}
 	pr := r.Split("prog")
@@ -292,6 +300,11 @@ func terminal(e *tabula.Extractor, op string) (string, []int, error) {
 			b.WriteString(sim.Dump(pg.Elements))
 			b.WriteString("\n")
 		}
+		// after a -1: the page each table-of-contents entry points to
+		nums = append(nums, -1)
+		for _, te := range d.TableOfContents() {
+			nums = append(nums, te.Page)
+		}
 		return b.String(), nums, nil
 	case "chunks":
 		cc, _, err := e.Chunks()
@@ -327,6 +340,56 @@ func (rn *runner) ref(page int, op string, opts map[string]bool) (string, bool) 
 	rn.refs[key] = out
 	rn.refErr[key] = failed
 	return out, failed
+}
+
+// unloadablePage regenerates the document with the cross-reference entry of one
+// page's (first) content stream pointing at the catalog. It returns the pristine
+// bytes and 0 when the layout stores that stream inside an object stream.
+func unloadablePage(doc pdfw.DocSpec, at int) ([]byte, int) {
+	gen := pdfw.Generate(doc)
+	if len(gen.PageContent) == 0 || doc.Revisions != 0 {
+		return gen.Built.Bytes, 0
+	}
+	pg := at % len(gen.PageContent)
+	pieces := gen.PageContent[pg]
+	if len(pieces) == 0 {
+		return gen.Built.Bytes, 0
+	}
+	victim := pieces[0]
+	target, ok := gen.Built.Offsets[0][gen.Catalog]
+	if _, plain := gen.Built.Offsets[0][victim]; !ok || !plain {
+		return gen.Built.Bytes, 0
+	}
+	bad := pdfw.GenerateWith(doc, nil, nil, func(rev, num, off int) int {
+		if num == victim {
+			return target
+		}
+		return off
+	})
+	return bad.Built.Bytes, pg + 1
+}
+
+var markerRe = regexp.MustCompile(`#[0-9]+`)
+
+// foreignMarkers: every generated line ends in a marker "#<n>" that is unique in the
+// document. It returns a marker of got that is on none of the pages in sel ("" if none).
+func foreignMarkers(got string, sel []int, rn *runner) string {
+	own := map[string]bool{}
+	for _, pg := range sel {
+		s, failed := rn.ref(pg, "text", map[string]bool{})
+		if failed {
+			return ""
+		}
+		for _, m := range markerRe.FindAllString(s, -1) {
+			own[m] = true
+		}
+	}
+	for _, m := range markerRe.FindAllString(got, -1) {
+		if !own[m] {
+			return m
+		}
+	}
+	return ""
 }
 
 func resolveSel(pages []int, count int) (sel []int, outOfRange bool) {
@@ -366,10 +429,20 @@ func (p *Prop) Execute(c *sim.Case, env *sim.Env) *sim.Result {
 	}
 	pristine := env.Disk.PutNamed("c10-pristine"+ext, data)
 	path := filepath.Join(env.Disk.Dir, "c10-subject"+ext)
-	faulted := sp.Fault.Kind != "" && sp.Fault.Kind != "none"
+	faulted := sp.Fault.Kind != "" && sp.Fault.Kind != "none" && sp.Fault.Kind != "page-unloadable"
+	damagedPage := 0 // 1-based number of the page that cannot be loaded
 	switch sp.Fault.Kind {
 	case "", "none":
 		env.Disk.PutNamed("c10-subject"+ext, data)
+	case "page-unloadable":
+		subject := data
+		if img, ok := c.Images["subject"]; ok {
+			subject = img
+			damagedPage = sp.Fault.Page
+		} else if sp.Other == "" {
+			subject, damagedPage = unloadablePage(sp.Doc, sp.Fault.At)
+		}
+		env.Disk.PutNamed("c10-subject"+ext, subject)
 	case "truncate":
 		env.Disk.PutNamed("c10-subject"+ext, data[:sp.Fault.At%(len(data)+1)])
 	case "zero-sector":
@@ -400,7 +473,7 @@ func (p *Prop) Execute(c *sim.Case, env *sim.Env) *sim.Result {
 	// the HTML reader reads the whole file when it opens and keeps no descriptor
 	keepsFileOpen := sp.Other != "html"
 	budget := int64(100_000_000)
-	if sp.Fault.Kind != "" && sp.Fault.Kind != "none" {
+	if faulted {
 		budget = 3_000_000 // damaged files may hang (property C02's subject); do not spend the batch on it
 	}
 	rn := &runner{t: t, path: pristine, count: sp.Doc.Pages, refs: map[string]string{}, refErr: map[string]bool{}}
@@ -563,7 +636,7 @@ func (p *Prop) Execute(c *sim.Case, env *sim.Env) *sim.Result {
 				if cl.Op == "count" && !faulted && rn.count >= 0 && n != rn.count {
 					fail("count:wrong", fmt.Sprintf("%s: PageCount %d, the document has %d pages", where, n, rn.count))
 				}
-			} else if !faulted && (isPDF || cl.Op == "count") {
+			} else if !faulted && (isPDF || cl.Op == "count") && (damagedPage == 0 || cl.Op == "count") {
 				fail(cl.Op+":error", fmt.Sprintf("%s: failed on an undamaged document: %s", where, oc.Msg))
 			} else if oc.Kind == "error" && !m.fromReader && !m.holdsFD {
 				// a failed open leaves nothing open; a failure after opening leaves the reader open until Close
@@ -626,11 +699,40 @@ func (p *Prop) Execute(c *sim.Case, env *sim.Env) *sim.Result {
 					sel = append(sel, i)
 				}
 			}
+			if damagedPage > 0 {
+				hit := false
+				for _, pg := range sel {
+					hit = hit || pg == damagedPage
+				}
+				if hit {
+					// the selection includes the page that cannot be loaded: an error is the expected
+					// answer; a success must at least not carry text of pages outside the selection
+					res.Count("damaged_page_selected", 1)
+					if oc.Kind == "ok" && cl.Op == "text" {
+						if bad := foreignMarkers(got, sel, rn); bad != "" {
+							fail("text:foreign-page", fmt.Sprintf("%s: page %d cannot be loaded; Text() of selection %v succeeded and carries %s, which is on none of the selected pages", where, damagedPage, sel, bad))
+						}
+					}
+					break
+				}
+				feats["damaged-page-elsewhere"] = true
+			}
 			if oc.Kind != "ok" {
 				fail(cl.Op+":error", fmt.Sprintf("%s: failed on an undamaged document with the valid selection %v: %s", where, m.pages, oc.Msg))
 				break
 			}
 			feats["selection"] = feats["selection"] || len(m.pages) > 0
+			if damagedPage > 0 && (m.opts["exh"] || m.opts["exf"]) {
+				// header / footer detection looks at all pages, and one of them is missing here:
+				// what is recognised as a header may legitimately differ from the intact file.
+				// What cannot differ is which pages the text comes from.
+				if cl.Op == "text" {
+					if bad := foreignMarkers(got, sel, rn); bad != "" {
+						fail("text:foreign-page", fmt.Sprintf("%s: Text() of selection %v (options %q, page %d cannot be loaded) carries %s, which is on none of the selected pages", where, sel, optKey(m.opts), damagedPage, bad))
+					}
+				}
+				break
+			}
 			switch cl.Op {
 			case "text":
 				var parts []string
@@ -676,6 +778,23 @@ func (p *Prop) Execute(c *sim.Case, env *sim.Env) *sim.Result {
 					fail(cl.Op+":composition", fmt.Sprintf("%s: result for selection %v is not the concatenation of the per-page results of pages %v\n  composed: %s\n  got:      %s", where, m.pages, sel, a, bb))
 				}
 			case "doc":
+				var tocPages []int
+				for i, n := range nums {
+					if n == -1 {
+						nums, tocPages = nums[:i], nums[i+1:]
+						break
+					}
+				}
+				for _, tp := range tocPages {
+					ok := false
+					for _, pg := range sel {
+						ok = ok || pg == tp
+					}
+					if !ok {
+						fail("doc:toc-page", fmt.Sprintf("%s: a table-of-contents entry points to page %d, the selected source pages are %v", where, tp, sel))
+						break
+					}
+				}
 				if fmt.Sprint(nums) != fmt.Sprint(sel) {
 					fail("doc:page-numbers", fmt.Sprintf("%s: the document model numbers its pages %v, the source pages are %v", where, nums, sel))
 					break
@@ -914,6 +1033,10 @@ func (p *Prop) Finalise(c *sim.Case, env *sim.Env) {
 	c.GetSpec(&sp)
 	if c.Images == nil {
 		c.Images = map[string][]byte{}
+	}
+	if sp.Fault.Kind == "page-unloadable" && sp.Other == "" {
+		c.Images["subject"], sp.Fault.Page = unloadablePage(sp.Doc, sp.Fault.At)
+		c.SetSpec(sp)
 	}
 	if sp.Other != "" {
 		c.Images["file"] = otherDoc(sp.Other, sp.OtherSeed)
